@@ -180,6 +180,21 @@ CHECKS = {
         design_ref="DESIGN.md 5 C01",
         note="Trusted: Lean kernel; axioms propext/Quot.sound/Classical.choice; Builder.specBuild as the meaning of the property; model + harness.",
         technique="Lean 4 proof of the specification's decision logic + model-and-spec-vs-code correspondence on random builder programs"),
+    "C11": dict(
+        category="proof",
+        text="Lean theorems on the formatting model: child_verbatim_in_parent (a part's octets are the same alone and inside a parent), "
+             "closing_delimiter and empty_multipart (the closing delimiter uses exactly the boundary, also for an empty multipart), "
+             "delimiter_before_each_part, single_part_layout, message_layout. The full statement parse_format (an RFC 2046 reader recovers "
+             "the tree under the BoundaryFree hypothesis) is recorded in Props/C11.lean and not proved yet; the reader of "
+             "Spec/MimeParse.lean is applied to the real octets of every generated message and compared with the tree asked for (nesting, "
+             "order, content types, kinds, leaf contents decoded per their Content-Transfer-Encoding). Correspondence: random trees to "
+             "depth 4 / fan-out 5, all five kinds, empty multiparts, custom boundaries, leaves with `--` lines; formatted twice, cloned, "
+             "alone and as a message body.",
+        design_ref="DESIGN.md 5 C11",
+        note="Trusted: Lean kernel; axioms propext/Quot.sound/Classical.choice; Spec/MimeParse.lean as the reading of RFC 2046 5.1; the generated "
+             "boundary not occurring in content is probabilistic (checked per case); model + harness. Known finding: a top-level single "
+             "part has an extra CRLF for a MIME reader.",
+        technique="Lean 4 proof (structural facts of the formatter) + correspondence with an independent RFC 2046 reader on real output"),
 }
 
 NOT_APPLICABLE = {
